@@ -105,7 +105,7 @@ let wire_of chunks = List.fold_left (fun a c -> a + List.length c) 0 chunks
 let run_qw t =
   let role = gs t "role" "c" and kind = gs t "kind" "bi" and skip = gi t "skip" 0 in
   let seed = gi t "seed" 1 and mask = gi t "ids" 31 in
-  let dbl = gopt t "dbl" and dblp = gopt t "dblp" and psp = gopt t "psp" in
+  let dbl = gopt t "dbl" and dblp = gopt t "dblp" and psp = gopt t "psp" and cf = gopt t "cf" in
   let via = via_of t in
   let win = max 1 (gi t "win" (1 lsl 20)) in
   let eff = max 1 (min win (gi t "cwin" (1 lsl 22))) in
@@ -132,10 +132,14 @@ let run_qw t =
     let guard = ref 0 and out = ref None in
     while !out = None do
       incr guard; if !guard > 100000 then failwith "model finish loop";
-      let oracle = if fname = "afin" then [fail_answer ()] else [WAccept (n_of_int (max 1 win)); WBlocked] in
+      let oracle = if fname = "afin" then [fail_answer ()]
+        else if peer_fault && allowed () <= 0 then [fail_answer ()]
+        else [WAccept (n_of_int (max 1 (min win (allowed ())))); WBlocked] in
+      let before = List.length (!s).s_q.qs_log in
       (match poll_finish oracle !s with
        | ((Ready r, s'), _) -> s := s'; out := Some r
-       | ((Pending, s'), _) -> s := s')
+       | ((Pending, s'), _) -> s := s');
+      accepted_total := !accepted_total + (List.length (!s).s_q.qs_log - before)
     done;
     (match !out with Some r -> r | None -> assert false) in
   if fname = "afin" then (match poll_fin () with Ok _ -> () | r -> res := "finerr:" ^ res_unit r);
@@ -190,7 +194,7 @@ let run_qw t =
                    | (Err e, s') -> s := s'; dblp_out := "refused:" ^ stream_class e
                    | (Panic _, _) -> dblp_out := "PANIC"
                  end;
-                 if fname = "cfin" && fat_i = j then begin
+                 if (fname = "cfin" && fat_i = j) || cf = Some j then begin
                    (* the pending write is abandoned and the stream finished *)
                    cancelled := true; finished := true; stop := true;
                    res := res_unit (poll_fin ())
@@ -257,7 +261,8 @@ let run_qw t =
         res := res_unit r)
    | _ -> ());
   q 4;
-  let qs = (!s).s_q in
+  (* drop=1: the adapter stream is dropped now; what Quinn is left with *)
+  let qs = if gi t "drop" 0 = 1 then send_drop !s else (!s).s_q in
   (match fname with
    | "stop" -> end_ := "stopped" | "close" -> end_ := "closed" | "timeout" -> end_ := "silent"
    | "lclose" -> ()
@@ -304,14 +309,25 @@ let run_qw t =
     | "lclose" -> "close:" ^ string_of_n fcode | _ -> "*" in
   let sid = string_of_n id in
   let refusal = "refused:" ^ stream_class spec_refusal in
+  (* everything below is computed from the CASE LINE only (never from the model run above) *)
+  let nb = List.length bufs in
+  let reached j = match fname with
+    | "none" -> Some (j < nb)
+    | "afin" -> Some (j = 0 && nb > 0)
+    | "areset" | "lclose" -> Some (j < min fat_i nb)
+    | "cfin" -> Some (j <= fat_i && j < nb)
+    | _ -> None in
+  let at_buffer opt yes = match opt with
+    | None -> "-"
+    | Some j -> (match reached j with Some true -> yes | Some false -> "-" | None -> "*") in
+  let sids = if mask land 8 <> 0 then sid else if mask = 0 then "-" else "*" in
   let spec = Printf.sprintf "ok res=%s recv=%s pfx=ok end=%s ids=%s pid=%s rid=%s dbl=%s dblp=%s ps=%s psp=%s%s%s"
-      sres srecv send_ (if !ids = [] then "-" else sid) sid (if kind = "uni" then "-" else sid)
-      (if !dbl_out <> "-" then refusal else "-")
-      (if !dblp_out <> "-" then refusal else "-")
+      sres srecv send_ sids sid (if kind = "uni" then "-" else sid)
+      (at_buffer dbl refusal) (at_buffer dblp refusal)
       sps
-      (if !psp_out <> "-" then "panic" else "-")
+      (at_buffer psp "panic")
       (if fname = "cfin" then " trunc=no" else "")
-      (match !fin2 with Some _ -> " fin2=err:unknown" | None -> "") in
+      (if fname = "afin" then " fin2=err:unknown" else "") in
   model ^ " | " ^ spec
 
 (* ------------------------------------------------------------------ qr *)
@@ -441,21 +457,27 @@ let run_qr t =
        | _ -> (match spec_read_fault (fault_of fname fcode) with Some e -> "err:" ^ stream_class e | None -> "*")) in
   let srecv = if fname = "fin" && stop_when = "none" then
       digest (List.concat (List.mapi (fun j l -> gen_bytes seed j 0 l) chunks)) else "*" in
-  let st = stop_run { in_flight = false; held = None; delivered = [] } (List.rev events_main) in
+  (* computed from the CASE LINE only: the events the application produces in this scenario *)
+  let spec_events = match stop_when with
+    | "idle" -> [EvStop stop_code; EvReadReady]
+    | "pend" -> [EvReadPending; EvStop stop_code; EvReadPending; EvReadReady]
+    | "pend2" -> [EvReadPending; EvStop stop_code; EvStop (N.add stop_code (n_of_int 1)); EvReadPending; EvReadReady]
+    | _ -> [EvReadPending; EvReadReady] in
+  let st = stop_run { in_flight = false; held = None; delivered = [] } spec_events in
   let spstop = match st.delivered with c :: _ -> string_of_n c | [] -> if fname = "fin" then "none" else "-" in
   let sid = string_of_n id in
-  (* re-reads: never a panic; while the connection is lost the same class and code again; after a reset / a
-     local stop whatever Quinn gives *)
-  let sre = if not (failed && re_n > 0) then "-" else
+  let sfailed = (fname <> "fin") in
+  let sre = if not (sfailed && re_n > 0) then "-" else
       (match spec_read_fault (fault_of fname fcode) with
        | Some (HConnErr c) -> String.concat "/" (List.init re_n (fun _ -> "err:" ^ conn_class c))
        | _ -> "*") in
+  let sids = if mask land 39 <> 0 then sid else if mask = 0 && not (sfailed && re_n > 0) then "-" else "*" in
   let spec = Printf.sprintf "ok end=%s recv=%s pfx=ok p1=%s p2=%s ids=%s pid=%s xid=%s pstop=%s pclose=%s re=%s rs=%s"
       send_ srecv (if stop_when = "idle" then "fin" else "pending")
       (if String.length stop_when >= 4 && String.sub stop_when 0 4 = "pend" then "pending" else "-")
-      (if !ids = [] then "-" else sid) sid (if kind = "uni" then "-" else sid) spstop
+      sids sid (if kind = "uni" then "-" else sid) spstop
       (if fname = "lclose" then string_of_n fcode else "-") sre
-      (if failed && re_n > 0 && restop <> None then "*" else "-") in
+      (if sfailed && re_n > 0 && restop <> None then "*" else "-") in
   model ^ " | " ^ spec
 
 (* ------------------------------------------------------------------ qa *)
